@@ -16,13 +16,13 @@ PROPS = {
         level="exploration",
         variants=dict(quick=[("asan", 1), ("asan-fuzzing", 1)], thorough=[("asan", 2), ("asan-fuzzing", 2), ("fixed-asan", 1)]),
         must_build=["asan"],
-        runs=dict(quick=6000, thorough=150000), secs=dict(quick=45, thorough=600),
+        runs=dict(quick=10000, thorough=150000), secs=dict(quick=45, thorough=600),
         rule="one evaluation = one simulated session (plan of ENCNEW/DECNEW/SRC/CTL/ENC ops generated from the run seed: encoder kind/rate/channels/application, "
-             "2-3 decoder replicas at other rates/channels/CPU levels, control-plane churn and max_data_bytes churn between frames, FUZZING buggify decisions in the asan-fuzzing variant); "
+             "2-3 decoder replicas at other rates/channels/CPU levels, control-plane churn and max_data_bytes churn between frames, FUZZING buggify decisions in the asan-fuzzing variant; four in ten multistream sessions are 'tight': up to 12 streams, buffers in the bytes right above the smallest packet the streams can form, 100 ms frames over-represented); "
              "non-trivial = at least one control change took effect after the first frame and >=5 encode/decode calls succeeded; distinct = distinct 64-bit signature over the sequence of "
              "(TOC config+stereo, frame duration index, tiny-packet flag, small-MTU flag, ctl request/outcome)",
         fault_keys=["ctl_applied", "ctl_rejected", "mtu_le4", "enc_invalid_args", "enc_refused"],
-        probes_required=["mode_silk", "mode_hybrid", "mode_celt", "mode_transition", "code3_packet", "tiny_packet"],
+        probes_required=["mode_silk", "mode_hybrid", "mode_celt", "mode_transition", "code3_packet", "tiny_packet", "enc_buffer_just_above_minimum", "enc_buffer_just_above_minimum_8plus_streams_100ms"],
         real=REAL_CODEC, simulated=SIM_COMMON,
         assumptions=ASSUME_COMMON + ["the clause about the frozen RFC 6716 reference decoder is not covered (no reference decoder offline)"],
     ),
